@@ -97,6 +97,9 @@ def as_material_array(material, basis, phases, chemicals):
                 return material, None, None
         else:
             raise Exception('unknown error')
+    elif isa(material, np.ndarray) and material.dtype.kind != 'f':
+        raise TypeError(f"material array must hold floats, not {material.dtype}; "
+                         "the reacted flows cannot be written back to it")
     elif phases:
         return SparseArray(material), None, material
     else:
